@@ -131,6 +131,8 @@ let parse_op (ws : string list) : map_op =
   | "entry_remove" | "rentry_remove" | "raw_remove" -> OpEntryRemove (z 1, z 2)
   | "rentry_drop" | "eref_drop" -> OpEntryDrop (z 1, z 2)
   | "raw_get" -> OpGetKeyValue (z 1)
+  | "entry_replace" | "entry_and_replace" -> if List.nth ws 3 = "some" then OpGetMut (z 1, z 4) else OpEntryRemove (z 1, z 2)
+  | "raw_replace" | "raw_and_replace" -> if List.nth ws 3 = "some" then OpGetMut (z 1, z 4) else OpRemove (z 1)
   | "entry_and_modify" -> OpEntryAndModify (z 1, z 2, z 3, z 4)
   | "entry_drop" -> OpEntryDrop (z 1, z 2)
   | "clear" -> OpClear
